@@ -694,7 +694,6 @@ func c11Rabin(c *kc.Ctx, rng *kc.Rng) {
 			}
 		}
 	}
-	rabFlush(c)
 	// a dealer with wrong secret commitments for one node, and a participant that reveals a wrong share when the
 	// dealer's polynomial is reconstructed
 	for _, mock := range []bool{true, false} {
@@ -715,6 +714,7 @@ func c11Rabin(c *kc.Ctx, rng *kc.Rng) {
 			}
 		}
 	}
+	rabFlush(c)
 	c.Extra("scenarios_R_rabin_dkg", scen)
 }
 
